@@ -124,17 +124,27 @@ Attr1 == << <<<<"ak">>, "av">> >>
 Attr2 == << <<<<"ak">>, "av">>, <<<<"a2">>, "">> >>
 Ev0 == [ty |-> <<"t0">>, attrs |-> <<>>]
 Ev1 == [ty |-> <<"t1">>, attrs |-> << <<<<"ek">>, "ev">> >>]
-RichAttrs  == IF Level > 1 THEN {<<>>, Attr1, Attr2} ELSE {<<>>, Attr2}
-RichEvents == IF Level > 1 THEN {<<>>, <<Ev0>>, <<Ev1>>, <<Ev1, Ev0>>} ELSE {<<>>, <<Ev1, Ev0>>}
+(* the full product of attribute / event / data shapes is explored at the ROOT of a program (thorough: 3 x 4 x 3);
+   the other nodes take the reduced product (2 x 2 x 3), and the nodes below a root with two sub-messages a fixed
+   rich shape with and without data: the product over all nodes of a tree is far beyond any budget (measured:
+   > 3 x 10^7 states with the full product everywhere) *)
+RichAttrs(lv)  == IF lv > 1 THEN {<<>>, Attr1, Attr2} ELSE {<<>>, Attr2}
+RichEvents(lv) == IF lv > 1 THEN {<<>>, <<Ev0>>, <<Ev1>>, <<Ev1, Ev0>>} ELSE {<<>>, <<Ev1, Ev0>>}
 RichData(info) == {NoData, Raw(""), Raw("d" \o ToString(info.pos))}
-Rich(info, subs) == {Beh(FALSE, <<>>, a, e, d, subs) : a \in RichAttrs, e \in RichEvents, d \in RichData(info)}
+RichL(lv, info, subs) == {Beh(FALSE, <<>>, a, e, d, subs) : a \in RichAttrs(lv), e \in RichEvents(lv), d \in RichData(info)}
+Lite(info) == {Beh(FALSE, <<>>, Attr2, <<Ev1, Ev0>>, d, <<>>) : d \in {NoData, Raw("d" \o ToString(info.pos))}}
 EvSubs == {Sub(m, 3, "", on) : m \in {Exec(B, <<>>), Send("u2", 1), Send("u2", 9), Inst(2, "Le", "", <<>>, "")}, on \in Ons}
 EventsMenu(info, fuel, cu) ==
-    IF info.entry = "reply" THEN Rich(info, <<>>) \cup {BFail}
-    ELSE IF info.c = B \/ (info.entry = "instantiate" /\ Len(cu.sc) > 0) THEN Rich(info, <<>>) \cup {BFail}
-    ELSE UNION {Rich(info, <<s>>) : s \in EvSubs} \cup Rich(info, <<>>)
+    LET isRoot == Len(cu.sc) = 0
+        lv == IF isRoot THEN Level ELSE 1
+        belowTwo == ~isRoot /\ Len(cu.sc[1].subs) = 2
+    IN
+    IF belowTwo THEN Lite(info) \cup {BFail}
+    ELSE IF info.entry = "reply" THEN RichL(lv, info, <<>>) \cup {BFail}
+    ELSE IF info.c = B \/ (info.entry = "instantiate" /\ Len(cu.sc) > 0) THEN RichL(lv, info, <<>>) \cup {BFail}
+    ELSE UNION {RichL(lv, info, <<s>>) : s \in EvSubs} \cup RichL(lv, info, <<>>)
          \cup (IF Level > 1
-               THEN UNION {Rich(info, <<Sub(Exec(B, <<>>), 1, "", on1), Sub(Exec(C, <<>>), 2, "", on2)>>) : on1 \in {"success", "never"}, on2 \in {"success", "error"}}
+               THEN UNION {RichL(1, info, <<Sub(Exec(B, <<>>), 1, "", on1), Sub(Exec(C, <<>>), 2, "", on2)>>) : on1 \in {"success", "never"}, on2 \in {"success", "error"}}
                ELSE {})
 EventsCalls(rt, cd, n) ==
     { ExecuteCall("u1", << Exec(A, <<>>) >>),
